@@ -7,7 +7,7 @@ for id in "$@"; do
     WT=/tmp/w10 /verif/tools/confirm_mutant.sh $id patch$k.diff demo$k.rs $id-$l 2>&1 | tail -4
     if [ -f /verif/seeded/$id-$l/patch.diff ]; then
       cp /tmp/w10/$id/mutant/NOTES.md /verif/seeded/$id-$l/NOTES.md 2>/dev/null
-      /verif/tools/try_isolated.sh /verif/seeded/$id-$l/patch.diff quick $id 2>&1 | tail -6
+      /verif/tools/try_isolated.sh /verif/seeded/$id-$l/patch.diff quick $id 2>&1 | grep -E "^== |class:|MACHINERY|does not" | head -5
     fi
   done
 done
